@@ -62,14 +62,30 @@ func loopExitOf(phi *ssa.Phi) *ssa.BasicBlock {
 func Counting(p *core.Prog, r *core.Report) {
 	const rule = "COUNTING"
 	na := newNilAn(p)
-	counterOf := func(f *ssa.Function, name string) *ssa.Phi {
+	// the counter: an integer phi in a loop header that is fed (directly or through a join phi) by itself + 1
+	counterOf := func(f *ssa.Function, _ string) *ssa.Phi {
 		var out *ssa.Phi
 		core.EachInstr(f, func(i ssa.Instruction) {
-			if phi, ok := i.(*ssa.Phi); ok && phi.Comment == name {
-				if ifi, ok := phi.Block().Instrs[len(phi.Block().Instrs)-1].(*ssa.If); ok {
-					_ = ifi
-					out = phi
-				}
+			bo, ok := i.(*ssa.BinOp)
+			if !ok || bo.Op != token.ADD {
+				return
+			}
+			phi, ok := bo.X.(*ssa.Phi)
+			if !ok {
+				return
+			}
+			if k, isK := core.ConstInt(bo.Y); !isK || k != 1 {
+				return
+			}
+			if _, isIf := phi.Block().Instrs[len(phi.Block().Instrs)-1].(*ssa.If); !isIf {
+				return
+			}
+			// exclude the range index itself: its increment sits in the header block
+			if bo.Block() == phi.Block() {
+				return
+			}
+			if dependsOn(phi.Edges[len(phi.Edges)-1], bo, 0) || feeds(bo, phi) {
+				out = phi
 			}
 		})
 		return out
@@ -286,7 +302,7 @@ func checkCounterIncrement(p *core.Prog, r *core.Report, rule string, f *ssa.Fun
 			return
 		}
 		phi, isPhi := bo.X.(*ssa.Phi)
-		if !isPhi || phi.Comment != "validated" {
+		if !isPhi || bo.Block() == phi.Block() || !feeds(bo, phi) {
 			return
 		}
 		if k, isK := core.ConstInt(bo.Y); !isK || k != 1 {
@@ -311,4 +327,25 @@ func checkCounterIncrement(p *core.Prog, r *core.Report, rule string, f *ssa.Fun
 	} else {
 		r.Bad(rule, what+":counter", p.Pos(f.Pos()), "the counter of valid alternatives is not incremented exactly once per valid alternative")
 	}
+}
+
+// feeds: the value v flows back into phi (directly or through join phis).
+func feeds(v ssa.Value, phi *ssa.Phi) bool {
+	seen := map[ssa.Value]bool{}
+	var walk func(x ssa.Value) bool
+	walk = func(x ssa.Value) bool {
+		if seen[x] {
+			return false
+		}
+		seen[x] = true
+		for _, ref := range core.Refs(x) {
+			if p, ok := ref.(*ssa.Phi); ok {
+				if p == phi || walk(p) {
+					return true
+				}
+			}
+		}
+		return false
+	}
+	return walk(v)
 }
